@@ -47,6 +47,10 @@ def fac(c):
     """printed squared distances are fac(c) * d^2: 16 S^2 for the Euclidean metric, 16 S^4 for PolynomialKernel(2,1) (S = coordinate scale)"""
     S = c.get("scale", 1); return 16 * S * S * (S * S if c["kind"] == "khc2" else 1)
 
+def far_case(c):
+    """data far from the origin (the 'far' stream, also recognised after a round trip through a case file)"""
+    return bool(c.get("far")) or any(abs(x) >= 10 ** 7 for p in c["pts"] for x in p)
+
 def dline(c, tree=None):
     # a depth limit d (with the default bucket size) is written as bucket field -d
     s = "D %s %d %d %d %s" % (c["kind"] + ("/%d" % c["scale"] if c.get("scale", 1) != 1 else ""), c["bucket"] if not c.get("depth") else -c["depth"], c["dim"], len(c["pts"]), " ".join(str(x) for p in c["pts"] for x in p))
@@ -455,6 +459,13 @@ def main():
                     while len(set(map(tuple, pts2))) < 2: dim2, pts2 = gen_points(rng, big)
                     if kind == "khc2": pts2 = [[max(-6, min(6, x)) for x in p] for p in pts2]
                     fresh.append(({"kind": kind, "bucket": 0, "depth": rng.choice([1, 1, 2, 3, 5, 40]), "dim": dim2, "pts": pts2, "body": []}, nq, False))
+                # data FAR from the origin (offset 1e8 per coordinate, extent a few units): kd and LC trees (Euclidean distances are formed
+                # from coordinate differences, so the printed 16 d^2 stay exact integers); queries near the data; tree queries only
+                if b == 0 and kind in ("kd", "lc") and rng.random() < 0.5:
+                    dim3, pts3 = gen_points(rng, big)
+                    while len(set(map(tuple, pts3))) < 2: dim3, pts3 = gen_points(rng, big)
+                    off = [rng.choice([10 ** 8, -10 ** 8, 3 * 10 ** 7]) for _ in range(dim3)]
+                    fresh.append(({"kind": kind, "bucket": 0, "far": 1, "dim": dim3, "pts": [[x + o for x, o in zip(p, off)] for p in pts3], "body": []}, nq, "F"))
         for kind in ("lc", "khc", "khc2"):                                             # duplicate points in LC / KHC trees
             for _ in range(2):
                 pts = [[rng.randint(-4, 4) for _ in range(2)] for _ in range(rng.randint(2, 6))]
@@ -519,7 +530,9 @@ def main():
                 ptree = parse_ptree(re.search(r"ptree=(\S+)", o[0]).group(1))
             qs = gen_queries(rng, c, tree, nq, ptree)
             if c["kind"] == "khc2": qs = ["Q " + " ".join(str(max(-120, min(120, int(x)))) for x in q.split()[1:]) for q in qs]
-            if isP == "K":                                      # queries near the cluster (integer units, half steps), some far away
+            if isP == "F":                                      # far-offset data: queries near the data points only
+                qs = ["Q " + " ".join(str(2 * x + rx.randint(-8, 8)) for x in rx.choice(c["pts"])) for _ in range(len(qs))]
+            elif isP == "K":                                      # queries near the cluster (integer units, half steps), some far away
                 p0 = c["pts"][0]
                 qs = ["Q " + " ".join(str(2 * x + rx.randint(-8, 8)) for x in rx.choice(c["pts"])) if rx.random() < 0.8
                       else "Q " + " ".join(str(2 * x + rx.choice([-1, 1]) * rx.randint(40, 400)) for x in p0) for _ in range(len(qs))]
@@ -556,7 +569,7 @@ def main():
     mon_failed_cases = set(ci for v in failing.values() for ci, _ in v)
 
     # ---- correspondence on the kd/default stream -----------------------------------------------
-    kd = [ci for ci, c in enumerate(cases) if c["kind"] == "kd" and c["bucket"] == 0 and io[ci][1] == 0 and any(l.startswith("Q") for l in c["body"])]
+    kd = [ci for ci, c in enumerate(cases) if c["kind"] == "kd" and c["bucket"] == 0 and not far_case(c) and io[ci][1] == 0 and any(l.startswith("Q") for l in c["body"])]
     def model_lines(c, implD):
         m = re.search(r"\btree=(\S+)", implD); nth = re.search(r"nth=(\S+)", implD)
         return [dline(c, m.group(1) + (" nth=" + nth.group(1) if nth else ""))] + [l for l in c["body"] if l.startswith("Q")]
@@ -611,7 +624,7 @@ def main():
     #   * every result of IterativeNNQuery::next / getNeighbors (exact 16 d^2, indices up to ties),
     #   * queue size and radius after every call when no decision of the search is within 1e-9 of a tie,
     # and the real tree must pass the extracted pwf_treeb and the unit-norm check |funct gradient|^2 = 1 (1e-12).
-    pj = [ci for ci, c in enumerate(cases) if c["kind"] in ("lc", "khc", "khc2") and c["bucket"] == 0 and io[ci][1] == 0
+    pj = [ci for ci, c in enumerate(cases) if c["kind"] in ("lc", "khc", "khc2") and c["bucket"] == 0 and not far_case(c) and io[ci][1] == 0
           and io[ci][0] and "ptree=" in io[ci][0][0] and any(l.startswith("Q") for l in c["body"])]
     def pmodel_lines(c, implD):
         pn = re.search(r"pnth=(\S+)", implD)
